@@ -218,7 +218,7 @@ def tasks_for(tier):
     flagsets = [{}, {'skip_deduplication': True}, {'skip_compositions': True}, {'skip_geomcomp': True, 'skip_boundary_conditions': True},
                 {'always_inline_filling': True, 'always_inline_filled': True}, {'always_inline_filling': True},
                 {'max_inline_score': 0.0}, {'max_inline_score': 100.0}]
-    n = 8 if tier == 'quick' else 200
+    n = 32 if tier == 'quick' else 300
     for i in range(n):
         fl = flagsets[i % len(flagsets)]
         out.append(('deck', 'c01', (base + i, 2 + i % 3, 2 + i % 3, 1 + i % 4), fl))
